@@ -19,6 +19,7 @@ import (
 	"github.com/google/mtail/internal/runtime/code"
 	"github.com/google/mtail/internal/runtime/compiler"
 	"github.com/google/mtail/internal/runtime/vm"
+	"github.com/google/mtail/verif/vstat"
 	"github.com/prometheus/client_golang/prometheus"
 	dto "github.com/prometheus/client_model/go"
 	"github.com/prometheus/common/expfmt"
@@ -42,6 +43,30 @@ func NewVM(name string, obj *code.Object, useCurrentYear bool, loc *time.Locatio
 // Line makes a log line.
 func Line(file, text string) *logline.LogLine {
 	return logline.New(context.Background(), file, text)
+}
+
+// Run has the VM process one line. A VM that does not come back within half a
+// minute (lines take microseconds) is reported through vstat.Hang; a panic
+// that escapes the VM is passed on to the caller.
+func Run(v *vm.VM, file, text string) {
+	type outcome struct{ r any }
+	done := make(chan outcome, 1)
+	go func() {
+		defer func() { done <- outcome{recover()} }()
+		v.ProcessLogLine(context.Background(), Line(file, text))
+	}()
+	select {
+	case o := <-done:
+		if o.r != nil {
+			panic(o.r)
+		}
+	case <-time.After(30 * time.Second):
+		t := text
+		if len(t) > 200 {
+			t = t[:200] + "..."
+		}
+		panic(vstat.Hang{Msg: fmt.Sprintf("the VM did not return from line %q within 30 s", t)})
+	}
 }
 
 // RuntimeErrors returns the value of prog_runtime_errors_total[name].
